@@ -126,3 +126,77 @@ func VerifC36_RadixDeletePrefix() {
 	}
 	vrt.Reach("end")
 }
+
+// VerifC36_RadixDeleteThenInsert: the tree left behind by DeletePrefix (node removal + mergeChild) is still a
+// sorted map: after deleting a prefix and inserting one more arbitrary key, Get agrees with the model for
+// every key ever used and for an arbitrary probe, Len is the model's size, and Minimum/Maximum are the
+// extremes of the surviving keys.
+func VerifC36_RadixDeleteThenInsert() {
+	K := vrt.Bound("K", 2)
+	L := vrt.Bound("L", 2)
+	t := New()
+	keys := make([][]byte, K+1)
+	live := make([]bool, K+1)
+	for i := 0; i < K; i++ {
+		keys[i] = verifKey(vrt.N("k", i), L)
+		for j := 0; j < i; j++ {
+			vrt.Assume(!bytes.Equal(keys[j], keys[i]))
+		}
+		t.Insert(append([]byte(nil), keys[i]...), 100+i)
+		live[i] = true
+	}
+	p := verifKey("p", L)
+	t.DeletePrefix(p)
+	size := 0
+	for i := 0; i < K; i++ {
+		if bytes.HasPrefix(keys[i], p) {
+			live[i] = false
+		} else {
+			size++
+		}
+	}
+	keys[K] = verifKey("extra", L)
+	dup := -1
+	for i := 0; i < K; i++ {
+		if live[i] && bytes.Equal(keys[i], keys[K]) {
+			dup = i
+		}
+	}
+	got, updated := t.Insert(append([]byte(nil), keys[K]...), 100+K)
+	vrt.Assert(updated == (dup < 0), "insert after deleteprefix: reports whether the key is new")
+	if dup >= 0 {
+		vrt.Assert(got == 100+dup, "insert after deleteprefix: existing key keeps its value")
+	} else {
+		vrt.Assert(got == 100+K, "insert after deleteprefix: new key stored")
+		live[K] = true
+		size++
+	}
+	vrt.Assert(t.Len() == size, "insert after deleteprefix: len")
+	for i := 0; i <= K; i++ {
+		v, ok := t.Get(keys[i])
+		if live[i] {
+			vrt.Assert(ok && v == 100+i, "insert after deleteprefix: live key found with its value")
+		} else if i < K && !(live[K] && bytes.Equal(keys[i], keys[K])) && dup < 0 {
+			vrt.Assert(!ok, "insert after deleteprefix: deleted key stays deleted")
+		}
+	}
+	probe := verifKey("probe", L+1)
+	wok := false
+	for i := 0; i <= K; i++ {
+		if live[i] && bytes.Equal(keys[i], probe) {
+			wok = true
+		}
+	}
+	_, gok := t.Get(probe)
+	vrt.Assert(gok == wok, "insert after deleteprefix: probe presence agrees with the model")
+	mk, _, mok := t.Minimum()
+	xk, _, xok := t.Maximum()
+	vrt.Assert(mok && xok, "insert after deleteprefix: non-empty tree has extremes")
+	for i := 0; i <= K; i++ {
+		if live[i] {
+			vrt.Assert(bytes.Compare(mk, keys[i]) <= 0, "insert after deleteprefix: minimum")
+			vrt.Assert(bytes.Compare(xk, keys[i]) >= 0, "insert after deleteprefix: maximum")
+		}
+	}
+	vrt.Reach("end")
+}
